@@ -44,6 +44,11 @@ Deepening round (what carries the data around R1–R6):
                      that element's id (destination); the id -> directory map it receives is the one in which every packaged
                      element's id is recorded with that very directory, and nothing else changes it (dependency-map); a failed
                      packaging step fails the caller (package-result)
+Spelling independence (round 3): "the index of the node with id X" is find over node_indices() with G[i].id() == X or over
+node_references() with the pair's weight compared and its index taken (find_by_id, lookup_of); "every node index of the
+graph" is node_indices() or the collected results of the one add_node call (all_node_indices); an iteration through
+element-wise stages (map / collect round trips) is an iteration over the base collection (C13_helpers.reopen); a per-element
+condition held in a local boolean flag is the decisions under which the flag is set (C13_helpers.flag_conds).
 Not decided: topological correctness on all DAGs (follows from R1–R3 given petgraph's documented post-order
 semantics); behaviour on cyclic input.
 """
@@ -148,29 +153,69 @@ class Scope:
         return sorted({c.name for c in self.calls if c.name and c.name.split('::')[-1] in lasts})
 
 
+SOME_PRESERVING = ('std::option::Option::<T>::map', 'std::option::Option::<T>::inspect', 'std::option::Option::<T>::as_ref', 'std::option::Option::<&T>::copied',
+                   'std::option::Option::<&T>::cloned', 'std::option::Option::<T>::as_mut')
+INDEX_OF = ('::index', '::node_weight')
+
+
+def lookup_of(v):
+    """the search an Option / its payload comes from: seen through `?` / unwrap / ok_or / map_err and through the Option
+    adapters under which "found" stays "found" (map, inspect, as_ref, copied, cloned) and projections of the payload"""
+    for _ in range(16):
+        v = core(v)
+        if v[0] == 'field':
+            v = v[1]
+        elif v[0] == 'call' and v[1] in SOME_PRESERVING and v[2]:
+            v = v[2][0]
+        else:
+            break
+    return v
+
+
 def find_by_id(sl, v):
-    """v denotes find(G.node_indices(), P) with P(i) = (G[i].id() == X): (G, X), else None"""
+    """v denotes the index of the first node of G whose id is X — (G, X), else None.  Stated on petgraph's enumeration
+    semantics, not on one spelling:
+        find(G.node_indices(), P)                 with P(i)         = (G[i].id() == X)
+        find(G.node_references(), P) -> .0        with P((i, G[i])) = (G[i].id() == X)   (node_references yields (i, &G[i])
+                                                  in index order; the index is the first component of the pair found,
+                                                  whether taken by `.map(|(i, _)| i)` or by destructuring)"""
+    v = peel(v)
+    pair = None
+    if v[0] == 'field' and v[2] == '0':
+        pair, v = True, v[1]
     f = core(v)
+    if f[0] == 'call' and f[1] == SOME_PRESERVING[0] and len(f[2]) == 2 and pair is None:
+        p = H.sym('p')
+        r = H.apply1(sl, f[2][1], p)
+        if r is None or peel(r) != ('field', p, '0'):
+            return None
+        pair, f = True, core(f[2][0])
     if not (f[0] == 'call' and f[1] == FIND and len(f[2]) == 2):
         return None
     recv = core(f[2][0])
-    if not (is_call(recv, '::node_indices') and recv[2]):
+    if not (recv[0] == 'call' and recv[2]):
         return None
     g = peel(recv[2][0])
     i = H.sym('i')
-    r = H.apply1(sl, f[2][1], i)
+    if is_call(recv, '::node_indices') and not pair:
+        x = i
+    elif is_call(recv, '::node_references') and pair:
+        x = ('tuple', (i, ('call', 'std::ops::Index::index', (g, i), None)))
+    else:
+        return None
+    r = H.apply1(sl, f[2][1], x)
     if r is None:
         return None
     r = peel(r)
     if not (is_call(r, '::eq') and len(r[2]) == 2):
         return None
-    a, b = peel(r[2][0]), peel(r[2][1])
-    if not (a[0] == 'call' and a[1] == DN + 'id' and a[2]):
-        return None
-    ix = peel(a[2][0])
-    if not (is_call(ix, '::index') and len(ix[2]) == 2 and peel(ix[2][1]) == i and canon(peel(ix[2][0])) == canon(g)):
-        return None
-    return g, b
+    for a, b in ((peel(r[2][0]), peel(r[2][1])), (peel(r[2][1]), peel(r[2][0]))):
+        if not (a[0] == 'call' and a[1] == DN + 'id' and a[2]):
+            continue
+        ix = peel(a[2][0])
+        if is_call(ix, *INDEX_OF) and len(ix[2]) == 2 and peel(ix[2][1]) == i and canon(peel(ix[2][0])) == canon(g) and not any(y == i for y in walk(b)):
+            return g, b
+    return None
 
 
 def error_named(sl, v, variant):
@@ -197,7 +242,7 @@ def missing_items(rep, prog, sl, S, subject, variant, ok_msg, bad_msg, where):
         return
     for i, e in enumerate(finds):
         conv = [o for o in S.of('OK_OR') if len(o.args) == 2 and error_named(sl, o.args[1], variant)
-                and site_of(core(H.reduce(sl, o.args[0]))) == S.site(e.call)]
+                and site_of(lookup_of(H.reduce(sl, o.args[0]))) == S.site(e.call)]
         ok, why = H.flows_out(prog, e)
         if not (ok and conv):
             ok2, why2 = H.none_is_error(prog, sl, e, variant)
@@ -206,6 +251,24 @@ def missing_items(rep, prog, sl, S, subject, variant, ok_msg, bad_msg, where):
             elif ok:
                 why = 'no ok_or(%s) on the lookup result, %s' % (variant, why2)
         rep.check(ok and bool(conv), 'R4', '%s#%d' % (subject, i), e.where(), ok_msg, bad_msg + ': %s' % why)
+
+
+def all_node_indices(sl, SC, cg, it, g):
+    """the iteration ranges over every node index of graph g:
+         g.node_indices(), or
+         the indices add_node handed out: the collected results of the one add_node call of the scope, applied to every
+         element of `nodes` on a graph created empty in this function (no node has another index; that add_node runs for
+         every element is R1/every-node-added; collected = all nodes are in the graph before the first lookup)"""
+    b = core(it.base) if it.base is not None else ('unknown',)
+    if is_call(b, '::node_indices') and b[2] and canon(peel(b[2][0])) == canon(g):
+        return True
+    e = peel(it.elem) if it.elem is not None else ('unknown',)
+    sites = SC.sites('ADD_NODE')
+    fresh = g[0] == 'call' and 'petgraph::' in g[1] and g[1].split('::')[-1] in ('new', 'with_capacity', 'default')
+    return bool(fresh and peel(it.base)[:3] == ('param', cg.path, 0) and len(sites) == 1 and e[0] == 'call' and classify(e[1]) == 'ADD_NODE'
+                and site_of(e) == sites[0] and len(e[2]) == 2 and canon(peel(e[2][0])) == canon(g)
+                and canon(peel(e[2][1])) == canon(peel(iters.elem_of(it.base)))
+                and it.recv is not None and any(y[0] == 'call' and y[1] in iters.COLLECTING for y in walk(it.recv)))
 
 
 def construction_total(rep, prog, sl, SC, cg, edges, w):
@@ -226,7 +289,7 @@ def construction_total(rep, prog, sl, SC, cg, edges, w):
             vd, why, its = H.total_iterations(SC.E, pushes[0])
     if vd == 'ok':
         bases = [core(it.base) if it.base is not None else ('unknown',) for it in its]
-        over_nodes = [b for b in bases if is_call(b, '::node_indices') and b[2] and canon(peel(b[2][0])) == canon(g)]
+        over_nodes = [it for it in its if all_node_indices(sl, SC, cg, it, g)]
         over_deps = [b for b in bases if any(x[0] == 'call' and x[1] == DN + 'dependencies' for x in walk(b))]
         if len(its) != 2 or len(over_nodes) != 1 or len(over_deps) != 1:
             vd, why = 'unproven', 'the edge is not added inside exactly "for every node index of the graph, for every dependency of that node": %s' % ' / '.join(vstr(b)[:70] for b in bases)
